@@ -5,6 +5,8 @@ package main
 // the appender's retention scan is run synchronously (verif hook) and the survivors are compared.
 
 import (
+	"bytes"
+	"encoding/binary"
 	"encoding/json"
 	"fmt"
 	"os"
@@ -83,15 +85,110 @@ func rtName(fileName, class string) string {
 // rtMargin: how young a "rewritten" file is at the first scan
 const rtMargin = 1500 * time.Millisecond
 
+// rtDSTZone builds a time zone whose clocks went forward by one hour at the given instant (TZif version 1 data: one
+// transition, two local time types), so that "n calendar days ago" and "n x 24 hours ago" differ around it.
+func rtDSTZone(at time.Time) (*time.Location, error) {
+	var b bytes.Buffer
+	b.WriteString("TZif")
+	b.WriteByte(0)
+	b.Write(make([]byte, 15))
+	for _, c := range []uint32{0, 0, 0, 1, 2, 8} { // isutcnt, isstdcnt, leapcnt, timecnt, typecnt, charcnt
+		_ = binary.Write(&b, binary.BigEndian, c)
+	}
+	_ = binary.Write(&b, binary.BigEndian, int32(at.Unix()))
+	b.WriteByte(1)
+	_ = binary.Write(&b, binary.BigEndian, int32(-5*3600))
+	b.Write([]byte{0, 0})
+	_ = binary.Write(&b, binary.BigEndian, int32(-4*3600))
+	b.Write([]byte{1, 4})
+	b.WriteString("HST\x00HDT\x00")
+	return time.LoadLocationFromTZData("Harness/Forward", b.Bytes())
+}
+
+// rtExtras: (a) a file name with a directory part ("svc/app.log") - the appender's files live below the log
+// directory, and nothing directly in the log directory is its own, in particular not another appender's "app.log.<ts>";
+// (b) a scan that cannot list the directory (it was moved aside) changes nothing for the scans after it.
+func rtExtras(r *hx.Result, tmp string) {
+	old := time.Now().Add(-100 * time.Hour)
+	lay := func() log.Layout { return &log.TextLayout{BaseLayout: log.BaseLayout{FileLineLength: 48}} }
+	// (a)
+	dir := filepath.Join(tmp, "extras-a")
+	_ = os.MkdirAll(filepath.Join(dir, "svc"), 0o755)
+	foreign := []string{"app.log.20240101000000", "app.log.20240202000000", "log.20240101000000"}
+	for _, n := range foreign {
+		p := filepath.Join(dir, n)
+		_ = os.WriteFile(p, []byte("x\n"), 0o644)
+		_ = os.Chtimes(p, old, old)
+	}
+	app := &log.RollingFileAppender{Layout: lay(), FileDir: dir, FileName: "svc/app.log", Rotation: log.TimeRotation{Interval: time.Hour}, MaxAge: 2}
+	if err := app.Start(); err == nil {
+		app.Write([]byte("current\n"))
+		p := hx.Catch(func() { log.VerifClearExpired(app) })
+		app.Stop()
+		r.Eval(1)
+		desc := map[string]any{"fileName": "svc/app.log", "log_directory_holds": foreign, "maxAge": 2}
+		if p != nil {
+			r.Violate("cleanup-panic", desc, "retention scan panicked: %v", p)
+		}
+		for _, n := range foreign {
+			if _, err := os.Stat(filepath.Join(dir, n)); err != nil {
+				r.Violate("deleted-foreign-or-young:name-with-directory", desc, "the scan of the appender named svc/app.log deleted %s, a file of another appender directly in the log directory", n)
+				break
+			}
+		}
+	}
+	// (b)
+	dir = filepath.Join(tmp, "extras-b")
+	_ = os.MkdirAll(dir, 0o755)
+	app = &log.RollingFileAppender{Layout: lay(), FileDir: dir, FileName: "b.log", Rotation: log.TimeRotation{Interval: time.Hour}, MaxAge: 2}
+	if err := app.Start(); err != nil {
+		r.SetInfra("rtExtras start: %v", err)
+		return
+	}
+	app.Write([]byte("current\n"))
+	expired := filepath.Join(dir, "b.log.20240101000000")
+	_ = os.WriteFile(expired, []byte("x\n"), 0o644)
+	_ = os.Chtimes(expired, old, old)
+	desc := map[string]any{"history": "directory moved aside, scan, directory moved back, scan", "maxAge": 2}
+	p := hx.Catch(func() {
+		_ = os.Rename(dir, dir+".aside")
+		log.VerifClearExpired(app)
+		_ = os.Rename(dir+".aside", dir)
+		log.VerifClearExpired(app)
+	})
+	app.Stop()
+	r.Eval(2)
+	if p != nil {
+		r.Violate("cleanup-panic", desc, "retention scan panicked: %v", p)
+	} else if _, err := os.Stat(expired); err == nil {
+		r.Violate("expired-own-kept:after-failed-scan", desc, "an expired own file survived the scan that followed a scan which could not list the directory")
+	}
+}
+
 func cmdRetention(f hx.Flags, r *hx.Result) {
 	rng := hx.Rand(14)
+	if f.Str("zone", "") == "dst" {
+		// the process lives in a zone whose clocks went forward half a day ago: days and 24-hour spans differ inside every retention window
+		if z, err := rtDSTZone(time.Now().Add(-12 * time.Hour)); err == nil {
+			time.Local = z
+		} else {
+			r.SetInfra("zone: %v", err)
+			return
+		}
+	}
 	tmp, err := os.MkdirTemp(os.Getenv("VERIF_SCRATCH"), "rt-")
 	if err != nil {
 		r.SetInfra("mkdtemp: %v", err)
 		return
 	}
 	defer os.RemoveAll(tmp)
+	if sh := os.Getenv("VERIF_SHARD"); sh == "" || sh == "0" {
+		rtExtras(r, tmp)
+	}
 	ages := []int32{1, 2, 24, 168, 720}
+	if f.Str("zone", "") == "dst" {
+		ages = []int32{24, 25, 47, 48, 168, 720}
+	}
 	// file names: with dots, a name that is the prefix of its sibling's, without dots, with characters that mean
 	// something to glob / regexp / character-set functions, with digits
 	fileNames := []string{"app.log", "app.log.wf", "svc", "svc[1].log", "a*b?.log", "http2.log", "node02.x", `back\slash.log`, "sp ace(1)+.log"}
